@@ -58,6 +58,16 @@ class C19(CheckBase):
                 inner['cmd'] = ['cat']
                 inner['globals'] = rng.choice([[], ['--ui', 'watford'], ['--ui', 'opus'], ['--ui', 'acorn'], ['--dir', 'A']])
                 inner['fault'] = None
+            elif rng.chance(0.35) and inner['image'].get('surfaces') and 'genflux' not in inner['image']:
+                # a well-formed disc and a valid command from the whole menu: most of C07's plans damage the image,
+                # and a command that is refused early never reaches the code both builds must agree on
+                from sim import dfswork
+                s0 = dfswork.surface_of({'surface': inner['image']['surfaces'][0]})
+                which = rng.choice(dfswork.READ_CMDS + ['extract-files', 'extract-unused', 'sector-map', 'sector-map', 'space', 'free'])
+                inner['cmd'] = [which, 'out'] if which.startswith('extract') else dfswork.gen_read_command(rng, s0, which)
+                inner['ops'] = []
+                inner['fault'] = None
+                inner['globals'] = rng.choice([[], [], ['--ui', 'watford'], ['--ui', 'opus'], ['--drive', '0' + (s0.volumes[0].label or '')]])
         else:
             inner = c08.CHECK.gen_case(rng, tier, index)
             # the one concrete hazard the property names is the default dialect: leave it out more often
